@@ -72,6 +72,28 @@ impl Stats {
         if self.frozen {
             return;
         }
+        // samples are for reading: very long strings (64 KiB paths) are cut
+        fn cut(v: &mut Value) {
+            match v {
+                Value::String(s) if s.len() > 300 => {
+                    let n = s.len();
+                    let mut k = 120;
+                    while !s.is_char_boundary(k) {
+                        k -= 1;
+                    }
+                    s.truncate(k);
+                    s.push_str(&format!("… ({} bytes in all)", n));
+                },
+                Value::Array(a) => a.iter_mut().for_each(cut),
+                Value::Object(o) => o.values_mut().for_each(cut),
+                _ => {},
+            }
+        }
+        let sample = || {
+            let mut v = sample();
+            cut(&mut v);
+            v
+        };
         let h = hash_of(key);
         if self.nontrivial.insert(h) {
             if self.samples.len() < 5 {
